@@ -28,7 +28,7 @@ ASSUMED = [
     "anchor names are ASCII (Python's \\d and str.isalpha are Unicode-aware); contextual anchors with GPOS_Context lib data, pre-existing mark features / markClass definitions in the feature file, variable fonts and GSUB closure of the abvm glyph set are not modelled",
 ]
 
-BASE_KEYS = ["top", "bottom", "top.alt", "ogonek", "nukta", "bottomleft", "candra", "center", "top2", "topalt"]
+BASE_KEYS = ["top", "bottom", "top.alt", "ogonek", "nukta", "bottomleft", "candra", "center", "top2", "topalt", "bottom.alt", "bottomcenter"]
 ODD_KEYS = ["top-alt", "top+alt"]          # characters ast.makeFeaClassName strips (but feaLib can lex in a lookup name)
 UNLEXABLE_KEY = "bottom'"                  # a character the feaLib lexer does not accept inside a name
 BAD_NAMES = ["_", "_top_1", "top_0", "*", "__2", "*.x", "_0"]
@@ -150,7 +150,23 @@ def gen(rng, n, mode):
             langsys = rng.choice([["DFLT", "dev2"], ["DFLT", "latn"], ["DFLT", "knd2", "khmr"], ["dev2"]])
         for g in glyphs:
             g.pop("role")
-        yield {"glyphs": glyphs, "gdef": gm, "cats": cats, "quant": rng.choice([1, 1, 1, 5, 5, 10, 2.5, 0.5]),
+        # hand-written markClass definitions under the writer's own class names (@MC_<key>): same anchor -> reused, different
+        # anchor (x or y) -> the writer must define a fresh class with the UFO's anchor
+        premark = []
+        quant = rng.choice([1, 1, 1, 5, 5, 10, 2.5, 0.5])
+        if gm == "none" and rng.random() < 0.35:
+            # (only without GDEF classes: a hand-written class naming a glyph that GDEF says is no mark is the user's own business)
+            from fractions import Fraction
+            import math
+            qf = Fraction(quant)
+            rnd = lambda v: math.floor(qf * math.floor(Fraction(v) / qf + Fraction(1, 2)) + Fraction(1, 2))
+            for g in glyphs:
+                for k_ in keys:
+                    if re.fullmatch(r"[A-Za-z0-9.]+", k_) and [a[0] for a in g["anchors"]].count("_" + k_) == 1 and rng.random() < 0.7:
+                        a = [a for a in g["anchors"] if a[0] == "_" + k_][0]
+                        dx, dy = rng.choice([(0, 0), (0, 0), (0, 50), (0, -7), (30, 0), (5, 5)])
+                        premark.append([g["name"], k_, rnd(a[1]) + dx, rnd(a[2]) + dy])
+        yield {"glyphs": glyphs, "premark": premark, "quant": quant, "gdef": gm, "cats": cats,
                "group": rng.random() < 0.5, "lib": rng.choice(["ufoLib2", "ufoLib2", "defcon"]), "langsys": langsys,
                "writerLib": rng.random() < 0.2}
 
@@ -159,6 +175,10 @@ def gen(rng, n, mode):
 
 def _fea(case):
     lines = [f"languagesystem {t} dflt;" for t in case["langsys"]]
+    have = {(g["name"], a[0]) for g in case["glyphs"] for a in g["anchors"]}
+    for g, k, x, y in case.get("premark") or []:
+        if (g, "_" + k) in have:
+            lines.append("markClass %s <anchor %d %d> @MC_%s;" % (g, x, y, k))
     if case["gdef"] == "table":
         cls = {"base": [], "ligature": [], "mark": []}
         for g in case["glyphs"]:
@@ -278,6 +298,8 @@ def run(case):
     inp = {"glyphs": [[".notdef", []]] + [[g["name"], [[a[0] or "", rat(a[1]), rat(a[2])] for a in g["anchors"]]] for g in case["glyphs"]],
            "gdef": _gdef_input(case), "quant": rat(q), "group": case["group"], "abvm": abvm, "notAbvm": notabvm, "K": K}
     tags = ["gdef:" + case["gdef"], "group" if case["group"] else "single", "quant:%s" % q, case["lib"]]
+    if case.get("premark"):
+        tags.append("predefined-markClass")
     nontrivial = False
     if err is not None:
         tags.append("err:" + err)
@@ -388,6 +410,14 @@ def agree(req, rep):
     if m.get("err") is not None or o.get("err") is not None:
         return m.get("err") == o.get("err")
     key = lambda e: (e[0], e[1], -1 if e[2] is None else e[2])
+    if "predefined-markClass" in req.get("tags", []):
+        # hand-written @MC_<key> classes change the generated class names and with them WHICH of several matching anchor
+        # keys wins for a pair (any candidate satisfies the property; the model does not contain the renaming): compare which
+        # attachments exist; the offsets are judged by the predicate (`holds`) against the UFO anchors
+        for f in FEATS + ["all"]:
+            if sorted(map(key, m["tables"][f])) != sorted(map(key, o["tables"][f])):
+                return False
+        return sorted(m["ligCount"]) == sorted(o["ligCount"])
     for f in FEATS + ["all"]:
         if sorted(m["tables"][f], key=key) != sorted(o["tables"][f], key=key):
             return False
